@@ -56,21 +56,26 @@ ENC = r'''
 '''
 
 ODD = r'''
-    #[kani::proof]
-    #[kani::unwind(6)]
-    #[kani::stub(v_frame::plane::Plane::new, stub_plane_new)]
-    fn k_c11_enc_odd_dims() {
+    fn odd_dims(in_w: usize, in_h: usize, in_ssx: u8, in_ssy: u8) {
         // dimensions that are not a multiple of the subsampling factor (known finding F6)
-        let in_w: usize = kani::any(); let in_h: usize = kani::any();
-        let in_ssx: u8 = kani::any(); let in_ssy: u8 = kani::any();
-        kani::assume(in_w >= 1 && in_w <= 2 && in_h >= 1 && in_h <= 2 && in_ssx <= 1 && in_ssy <= 1);
-        kani::assume(in_w % (1usize << in_ssx) != 0 || in_h % (1usize << in_ssy) != 0);
-        let rgb = crate::Rgb::new(vec![[0.5, 0.25, 0.75]; 4][..in_w * in_h].to_vec(), in_w, in_h, TC::BT1886, CP::BT709).unwrap();
+        let rgb = crate::Rgb::new(vec![[0.5, 0.25, 0.75]; 9][..in_w * in_h].to_vec(), in_w, in_h, TC::BT1886, CP::BT709).unwrap();
         let c = YuvConfig { bit_depth: 8, subsampling_x: in_ssx, subsampling_y: in_ssy, full_range: false, matrix_coefficients: MC::BT709,
             transfer_characteristics: TC::BT1886, color_primaries: CP::BT709 };
         let r = Yuv::<u8>::try_from((&rgb, c));
         if let Ok(y) = r { assert!(y.width() == in_w && y.height() == in_h, "dimensions preserved"); }
     }
+    #[kani::proof]
+    #[kani::unwind(12)]
+    #[kani::stub(v_frame::plane::Plane::new, stub_plane_new)]
+    fn k_c11_enc_odd_dims_3x1_ss10() { odd_dims(3, 1, 1, 0) }
+    #[kani::proof]
+    #[kani::unwind(12)]
+    #[kani::stub(v_frame::plane::Plane::new, stub_plane_new)]
+    fn k_c11_enc_odd_dims_1x3_ss01() { odd_dims(1, 3, 0, 1) }
+    #[kani::proof]
+    #[kani::unwind(12)]
+    #[kani::stub(v_frame::plane::Plane::new, stub_plane_new)]
+    fn k_c11_enc_odd_dims_3x3_ss11() { odd_dims(3, 3, 1, 1) }
 '''
 
 VEC = r'''
@@ -82,7 +87,10 @@ mod verif_c11v {
     fn stub_powf(x: f32, y: f32) -> f32 { f32::from_bits(x.to_bits() ^ y.to_bits().rotate_left(7) ^ 0x5555_5555) }
     fn stub_expf(x: f32) -> f32 { f32::from_bits(x.to_bits().rotate_left(3) ^ 0x0F0F_0F0F) }
     fn stub_cbrtf(x: f32) -> f32 { f32::from_bits(x.to_bits().rotate_left(5) ^ 0x3333_3333) }
-    fn anyp() -> [f32; 3] { [kani::any(), kani::any(), kani::any()] }
+    // fixed-point pixel components k/64 (i8): the claim is structural, and two copies of full-width float multipliers/dividers
+    // on identical inputs are not provably equal for SAT in reasonable time
+    fn anyc() -> f32 { let k: i8 = kani::any(); (k as f32) * 0.015625 }
+    fn anyp() -> [f32; 3] { [anyc(), anyc(), anyc()] }
     fn same(a: &[f32; 3], b: &[f32; 3]) -> bool { a[0].to_bits() == b[0].to_bits() && a[1].to_bits() == b[1].to_bits() && a[2].to_bits() == b[2].to_bits() }
 
     macro_rules! pointwise {
@@ -144,9 +152,9 @@ def plan(tier, seed):
     p.modules.append(("yuvxyb-math/src/lib.rs", open(os.path.join(here, "..", "harness", "math_stub_lib.rs")).read()))
     hs = []
     # (a) decode: pointwise + layout independence on symbolic-geometry frames with symbolic contents
-    inst = [("u8", 1, 1, 2, 2), ("u8", 0, 0, 2, 1), ("u16", 1, 0, 2, 1)]
+    inst = [("u8", 1, 1, 2, 2), ("u16", 1, 0, 2, 1)]
     if thorough:
-        inst += [("u8", 2, 0, 4, 1), ("u8", 0, 1, 2, 2), ("u8", 1, 1, 4, 2), ("u16", 0, 0, 2, 2), ("u8", 2, 2, 4, 4)]
+        inst += [("u8", 0, 0, 2, 1), ("u8", 2, 0, 4, 1), ("u8", 0, 1, 2, 2), ("u8", 1, 1, 4, 2), ("u16", 0, 0, 2, 2), ("u8", 2, 2, 4, 4)]
     txt = geom.PRELUDE
     for k, (T, sx, sy, w, h) in enumerate(inst):
         n = "k_c11_dec_%s_ss%d%d_%dx%d" % (T, sx, sy, w, h)
@@ -169,16 +177,19 @@ def plan(tier, seed):
                        obligation="encode %s %dx%d to subsampling (%d,%d): every luma sample is the 1x1 encoding of its pixel, every chroma sample equals the 4:4:4 chroma of a pixel of its own block, plane sizes (w>>ss_x,h>>ss_y), source unmodified" % (T, w, h, sx, sy),
                        sym="%d pixels x 3 components: every f32 in [-1,2]" % (w * h)))
     et += ODD + "}\n"
-    hs.append(dict(name="k_c11_enc_odd_dims", family="encode", timeout=1200, mem_gb=12, replay=None, covers=[],
-                   obligation="encoding to a subsampling that does not divide the dimensions (domain of known finding F6: panics instead of returning an error)", sym="w,h in 1..=2, ss in 0..=1, at least one dimension not divisible"))
+    for n in ("k_c11_enc_odd_dims_3x1_ss10", "k_c11_enc_odd_dims_1x3_ss01", "k_c11_enc_odd_dims_3x3_ss11"):
+        hs.append(dict(name=n, family="encode", timeout=1200, mem_gb=16, replay=None, covers=[],
+                       obligation="encoding to a subsampling that does not divide the dimensions (domain of known finding F6: panics instead of returning an error)", sym="concrete dimensions / subsampling with one dimension not divisible"))
     p.modules.append(("src/yuv_rgb.rs", et))
     # (c) Vec-based conversions
     p.modules.append(("src/lib.rs", VEC))
     for n, what in (("k_c11_vec_to_linear_srgb_p2020", "Rgb(sRGB, BT.2020) -> LinearRgb"), ("k_c11_vec_to_gamma_pq_p3", "LinearRgb -> Rgb(PQ, P3-DCI)"), ("k_c11_vec_xyb_forward", "LinearRgb -> Xyb"),
                     ("k_c11_vec_xyb_inverse", "Xyb -> LinearRgb"), ("k_c11_vec_hsl_forward", "LinearRgb -> Hsl"), ("k_c11_vec_xyb_from_rgb_hlg", "Rgb(HLG) -> Xyb")):
-        hs.append(dict(name=n, family="vec", timeout=1800, mem_gb=12, replay=None, covers=[],
+        if n == "k_c11_vec_hsl_forward" and not thorough:
+            continue     # two float divisions per pixel x 12 pixel conversions: > 30 min; thorough tier only (time-capped)
+        hs.append(dict(name=n, family="vec", timeout=5400 if n == "k_c11_vec_hsl_forward" else 1800, mem_gb=12, replay=None, covers=[],
                        obligation="%s: 3-pixel image (3x1 and 1x3): pixel i == conversion of the 1x1 image of pixel i, bit for bit; dimensions preserved; repeat is bit-identical" % what,
-                       sym="3 pixels, all 2^96 bit patterns each (powf/expf/cbrtf/mul_arr replaced by pure stand-ins: the claim is structural)"))
+                       sym="3 pixels, components on the fixed-point grid k/64 in [-2,2) (powf/expf/cbrtf/mul_arr replaced by pure stand-ins: the claim is structural)"))
     p.harnesses = hs
     p.functions = ["ycbcr_to_ypbpr, ypbpr_to_ycbcr (src/yuv_rgb.rs)", "image_transfer_fn! loops, transform_primaries loop (transfer.rs, color.rs)", "linear_rgb_to_xyb / xyb_to_linear_rgb loops (rgb_xyb.rs)", "Hsl::from loop (hsl.rs)",
                    "all From/TryFrom wrappers that carry width/height"]
